@@ -37,10 +37,10 @@ CFG = dict(
 def classify(line):
     """the scripted witness case carries the name of the finding it is the minimal replay of; a randomly generated
     case of the samehost stream that fails is attributed to the same class"""
-    for t in line.get("tags") or []:
+    for t in (line.get("tags") or []):
         if t.startswith("witness:"):
             return t[len("witness:"):]
-    if "samehost" in line.get("tags") or []:
+    if "samehost" in (line.get("tags") or []):
         return "same-host-release-races-claim"
     return None
 
